@@ -9,3 +9,18 @@ package resolve
 //@ func resolver.spellcheck
 //@   prop C03
 //@   assert /return spell.Nearest\(use.id.Name, names\)/ candidates_sorted: sorted(names)
+
+// ---- static limits (C09, C02): a call with more than 255 positional or more than 255 keyword
+// arguments is reported by the resolver (the compiler panics on such a call otherwise)
+//@ func resolver.errorf
+//@   prop C09
+//@   modifies r.errors, r.errors[*]
+//@   ensures len(r.errors) == old(len(r.errors)) + 1
+//@ func resolver.expr
+//@   prop C09 C02
+//@   snap /if p / e0 = len(r.errors)
+//@   snap /if p / p0 = p
+//@   assert /if n / positional_limit: p0 > 255 ==> len(r.errors) > e0
+//@   snap /if n / e1 = len(r.errors)
+//@   snap /if n / n1 = n
+//@   assert /^}$/ keyword_limit: typeis(e, *syntax.CallExpr) && n1 > 255 ==> len(r.errors) > e1
